@@ -154,13 +154,20 @@ pub fn codec_step(t: &[&str]) -> Option<String> {
             enc.splice(at..at, part);
             Some(format!("dec={}", ni_decode(&enc)))
         }
-        "ni-dec" => Some(ni_decode(&unhex(t.get(1)?)?)),
+        "ni-dec" => {
+            let b = unhex(t.get(1)?)?;
+            alloc_probe::reset();
+            let r = ni_decode(&b);
+            Some(format!("{}{}", r, alloc_probe::verdict(b.len())))
+        }
         "range-dec" => {
             let b = unhex(t.get(1)?)?;
-            Some(match Range::read_from(std::io::Cursor::new(&b)) {
+            alloc_probe::reset();
+            let r = match Range::read_from(std::io::Cursor::new(&b)) {
                 Ok(r) => format!("ok:{}", range_str(&r)),
                 Err(_) => "err".to_string(),
-            })
+            };
+            Some(format!("{}{}", r, alloc_probe::verdict(b.len())))
         }
         "range-enc" => {
             let r = parse_range(t.get(1)?)?;
@@ -170,13 +177,15 @@ pub fn codec_step(t: &[&str]) -> Option<String> {
         }
         "rm-dec" => {
             let b = unhex(t.get(1)?)?;
-            Some(match hrot::RotationMessage::read_from(std::io::Cursor::new(&b)) {
+            alloc_probe::reset();
+            let r = match hrot::RotationMessage::read_from(std::io::Cursor::new(&b)) {
                 Ok(m) => {
                     let (id, p, c) = hrot::msg_fields(&m);
                     format!("ok:id={}|p={}|c={}", id, hex(&p), c.map(|c| hex(&c)).unwrap_or("none".to_string()))
                 }
                 Err(_) => "err".to_string(),
-            })
+            };
+            Some(format!("{}{}", r, alloc_probe::verdict(b.len())))
         }
         _ => None,
     }
